@@ -1,6 +1,7 @@
 import Uflow.Lemmas.HcSysSim
 import Uflow.Lemmas.HcSysFew
 import Uflow.Lemmas.HcSysCheck
+import Uflow.Lemmas.HcSysSync
 import Uflow.Lemmas.CreditEx
 import Uflow.Props.C01Sys
 
@@ -31,11 +32,14 @@ string `A.flush` / `B.flush` has handed to its frame sink, in order; nothing is 
   range is a no-op.
 
 Ghost fields (write-only): `sent` (the `A.send` calls), `pend` (the packets `A`'s `PSend.emit`
-returned, `C01_hc_pend_is_emit_history`), `fed` (the datagrams `B.handleDataFrame` handed to
-`PRecv.handleDatagram`), `acks` (the base ids `A.handleAckFrame` handed to `PSend.acknowledge`),
+returned, `C01_hc_pend_is_emit_history`), `em` (the same packets with their send modes, the ghost replay
+`HcSys.replayEmit` of the `emit` calls of each `flush`), `fed` (the datagrams `B.handleDataFrame` handed
+to `PRecv.handleDatagram`), `acks` (the base ids `A.handleAckFrame` handed to `PSend.acknowledge`),
 `advB` / `bases` (the packet receive window base of `B`, unwrapped / every value it had), `outs` (the
-payloads `B.receive` returned, concatenated). `C01_hc_dispatch` states what `dispatch` does to the
-packet sender and receiver in terms of `fedBy` / `ackBy`, the functions that feed `fed` / `acks`.
+payloads `B.receive` returned, concatenated), `syncs` (for every sync frame carrying a packet id that
+`A.flush` emitted while `SyncOkP` held: the number of packets emitted so far and that id — the `syncs`
+list of `Sys`). `C01_hc_dispatch` states what `dispatch` does to the packet sender and receiver in terms
+of `fedBy` / `ackBy`, the functions that feed `fed` / `acks`.
 
 ## Results
 
@@ -49,14 +53,25 @@ packet sender and receiver in terms of `fedBy` / `ackBy`, the functions that fee
 3. `C01_hc_refines_sys` — refinement: every run of the pair whose schedule satisfies `Guarded` maps to
    a run `Sys.runS` from `Sys.initS` related by `HcSys.Rel`: the `Sys` sender is `A.ps` with the
    per-fragment acknowledgement flags erased (`acknowledge_fragment` is not a `Sys` step and no `Sys`
-   step reads the flags), the `Sys` receiver is `B.pr`, `Sys.pend = pend`,
-   `Sys.hist.enqueued = sent`, the payloads in `Sys.rcv.log` are `outs`.
+   step reads the flags), the `Sys` receiver is `B.pr`, `Sys.pend = pend`, `Sys.hist.emitted = em`,
+   `Sys.hist.enqueued = sent`, the payloads in `Sys.rcv.log` are `outs`. A sync frame carrying a packet
+   id maps to the `sync` step of `Sys` when `A.flush` emits it and to a `resync` step when it is
+   delivered to `B`.
 4. `C01_hc_in_order`, `C01_hc_at_most_once`, `C01_hc_byte_exact`, `C02_hc_no_skip` — the conclusions of
    `C01_sys_in_order`, `C01_sys_at_most_once` (+ `C01_sys_delivered_is_emitted`),
    `C01_sys_delivered_payload`, `C02_sys_no_skip_full` for the payloads returned by `B.receive`, with
    "submitted" = the `A.send` calls; `C01_hc_delivery` gives them for one common attribution.
 5. `C01_hc_example` — a concrete run with a lost frame, a duplicated frame, a duplicated datagram and
-   a duplicated acknowledgement; its schedule satisfies `Guarded`.
+   a duplicated acknowledgement; `C01_hc_resync_witness`, `C01_hc_sync_example` — runs in which a sync
+   frame moves `B`'s packet window; all their schedules satisfy `Guarded`.
+6. Sync frames (section 6): `C01_hc_frame_acks_genuine` (a fragment is marked acknowledged in `A` only
+   if its datagram was handed to `B`'s packet receiver), `C01_hc_ids_nodup` (the side condition
+   `IdsNodup` — no frame id reused — holds while `A` has sent at most `2^32` data frames),
+   `C01_hc_sender_idle` (resend queue and pending
+   queue empty ⇒ every fragment of every Reliable packet in the send window is acknowledged),
+   `C01_hc_sync_ok` (hence `SyncOkP` holds whenever `emit_sync_frame` sends a packet id, and every such
+   frame is recorded in `syncs`), `C01_hc_guarded_of_few_full` / `C01_hc_delivery_few` (for runs with
+   fewer than `2^19` emitted packets NO schedule hypothesis remains).
 
 ## The schedule hypothesis of 3 and 4 (`Guarded`, `OpOk`)
 
@@ -65,18 +80,32 @@ packet sender and receiver in terms of `fedBy` / `ackBy`, the functions that fee
 * `FreshAck`: an ack frame handed to `A` carries a base id for which the `AckFresh` guard of `Sys`
   holds;
 * a sync frame handed to `B` carries no packet id, or one on which `PRecv.resynchronize` does nothing
-  in `B`'s current state.
+  in `B`'s current state, or one for which `FreshSync` holds: it is recorded in `syncs` (emitted by
+  `A.flush` while `SyncOkP` held: every Reliable packet emitted so far completely received by `B`) and
+  the `SyncFresh` guard of `Sys` holds for it.
 
-The first two are the network hypotheses of `C01Sys` (20-bit sequence ids), unchanged. They are NOT
-derivable from the frame window test of `handleDataFrame` alone: `AckQ.contains` is a sliding window
-test on 32-bit wrapping frame ids, so a frame delayed for `2^32` frames is accepted again; an
-analogous frame-level freshness hypothesis would be needed, and the link from frame ids to packet
-positions (at most 127 datagrams per frame) is not proved here. The third is a genuine gap between
-the two layers: `Sys` has no `resynchronize` step, while `emit_sync_frame` does send
-`next_packet_id` when the sender has unacknowledged packets and nothing left to (re)send, and the
-receiver then moves its window past packets it never received. Runs in which that happens are outside
-3 and 4 (1 and 2 hold for them; `C01_hc_resync_witness`). `C01_hc_guarded_of_few`: in runs that emit
-fewer than `2^19` packets the first two clauses hold automatically, only the third remains.
+All three are network hypotheses of `C01Sys` about the 20-bit sequence ids. They are NOT derivable
+from the frame window test of `handleDataFrame` alone: `AckQ.contains` is a sliding window test on
+32-bit wrapping frame ids, so a frame delayed for `2^32` frames is accepted again; an analogous
+frame-level freshness hypothesis would be needed, and the link from frame ids to packet positions (at
+most 127 datagrams per frame) is not proved here.
+
+The former gap — `Sys` had no `resynchronize` step, so runs in which a delivered sync frame moved `B`'s
+packet window were outside 3 and 4 — is closed: `Sys` has the steps `sync` (under the ghost guard
+`SyncOk`) and `resync`, and the guard is discharged from the half connections (`C01_hc_sync_ok`) for
+every `Guarded` run that does not reuse the 32-bit frame ids (`IdsNodup`; holds while `A` has sent at
+most `2^32` data frames, `C01_hc_ids_nodup`; the run may emit any number of packets, with any number of
+wraps of the 20-bit packet ids): `emit_sync_frame` sends `next_packet_id` only when the resend queue and the
+pending queue are empty, then every fragment of every Reliable packet in the send window is
+acknowledged at frame level (`C01_hc_sender_idle`), so a data frame carrying it, emitted after the
+packet, was accepted by `B` and its datagrams handed to `B`'s packet receiver
+(`C01_hc_frame_acks_genuine` at the level of datagram values; `HcSys.Full.gotA` at the level of packet
+identities, using the emission stamps `wireT` of the frames and the freshness clause `FreshDg`), which
+keeps every fragment it was handed until the packet is complete (`Sys.gotR_step`, `Sys.gotR_all`). So
+the membership in `syncs` required by `FreshSync` (i.e. `SyncOkP` at emission) is true for EVERY sync
+frame with a packet id on the wire of such a run, and `FreshSync` is a pure freshness condition like
+`FreshDg` / `FreshAck`. `C01_hc_guarded_of_few_full`: in runs that emit fewer than `2^19` packets
+(`w ≤ 2^16`, `w ≤ W`) all clauses hold automatically.
 `C01_hc_guarded_checker` gives an executable sufficient test.
 -/
 
@@ -207,15 +236,16 @@ theorem C01_hc_ack_wire_genuine (ops : FloatOps F) (cA cB : Config) (nowA nowB :
 
 /-- **The half-connection pair refines the packet-layer system.** If the two configurations use the
 same initial packet id and every step of the schedule satisfies its side condition (`Guarded`: the
-`Fresh` / `AckFresh` guards of `Sys` for the delivered datagrams / base ids, no effective packet
-resynchronization), then the run of the pair is matched by a run of `Sys` from
+`Fresh` / `AckFresh` / `SyncFresh` guards of `Sys` for the delivered datagrams / base ids / recorded
+sync values), then the run of the pair is matched by a run of `Sys` from
 `initS w W b a m` — `w`, `a` = `A`'s transmit packet window and allocation limit, `W`, `m` = `B`'s
 receive packet window and allocation limit, `b` the common initial packet id — ending in a state
 related by `HcSys.Rel`: `s.snd = erase A.ps` (`A.ps` with `acked := []` in every window entry),
 `s.rcv.st = B.pr`, `s.pend = pend`, `s.hist.enqueued = sent`, the payloads of `s.rcv.log` are `outs`.
 The proof is a step-by-step simulation (`HcSys.sim_step`): `sendA` ↦ `enq`, `flushA` ↦ one `emit` per
-`PSend.emit` call, `deliverAB` of an accepted data frame ↦ one `deliver` per datagram, `recvB` ↦
-`recv`, `deliverBA` of an ack frame ↦ `ack`; all other steps ↦ no step. -/
+`PSend.emit` call, followed by `sync` if `SyncOkP` holds afterwards; `deliverAB` of an accepted data
+frame ↦ one `deliver` per datagram, of a `FreshSync` sync frame ↦ `resync`; `recvB` ↦ `recv`;
+`deliverBA` of an ack frame ↦ `ack`; all other steps ↦ no step. -/
 theorem C01_hc_refines_sys (ops : FloatOps F) (cA cB : Config) (nowA nowB : Nat) (rngA rngB : Rng)
     (hc : PairCfg cA cB) (hb : cA.txPacketBaseId = cB.rxPacketBaseId) (sched : List POp) (h : HcPair F)
     (hg : Guarded ops (initP ops cA cB nowA nowB rngA rngB) sched)
@@ -232,10 +262,11 @@ theorem C01_hc_guarded_checker (ops : FloatOps F) (h : HcPair F) (sched : List P
 
 /-- **With fewer than `2^19` emitted packets the freshness hypotheses are automatic.** If the run
 emits fewer than `2^19` packets in total (`pend.length < 2^19` at the end; `w ≤ 2^19`), the clauses
-`FreshDg` / `FreshAck` of `Guarded` hold at every step — every delivered datagram is a fragment of an
-emitted packet (1), every delivered base id is a recorded base of `B` (2), and the 20-bit ids cannot
-have wrapped. Only the resynchronization clause remains (`HcSys.GuardedR`): 3 and 4 then apply to every
-schedule in which no delivered sync frame moves `B`'s packet window. -/
+`FreshDg` / `FreshAck` of `Guarded` and the freshness part of `FreshSync` hold at every step — every
+delivered datagram is a fragment of an emitted packet (1), every delivered base id is a recorded base
+of `B` (2), and the 20-bit ids cannot have wrapped. Only the resynchronization clause without its
+freshness part remains (`HcSys.GuardedR`: a delivered sync frame carries no packet id, or does nothing,
+or is recorded in `syncs`); `C01_hc_guarded_of_few_full` removes it as well. -/
 theorem C01_hc_guarded_of_few (ops : FloatOps F) (cA cB : Config) (nowA nowB : Nat) (rngA rngB : Rng)
     (hc : PairCfg cA cB) (hb : cA.txPacketBaseId = cB.rxPacketBaseId)
     (hw : cA.txPacketWindowSize ≤ 2^19) (k : Nat) (hk : k ≤ 19) (hW : cB.rxPacketWindowSize = 2^k)
@@ -513,19 +544,221 @@ example :
         | .error _ => false)
      | .error _ => false) = true := by decide +kernel
 
-/-- `Guarded` is a real restriction only through its third clause in short runs; this schedule
-violates it: `A` sends an Unreliable packet whose only frame is lost, and after the sync timeout
-`A.flush` emits a sync frame carrying `next_packet_id = 1`, whose delivery makes `B`'s packet receiver
-move its window base from 0 to 1 (`advB = 1`) without any `receive` — a step `Sys` does not have.
-The genuineness theorems 1 and 2 still apply to this run. -/
+/-- The schedule of `C01_hc_resync_witness`: `A` sends an Unreliable packet whose only data frame
+(frame 0) is lost; after the sync timeout `A.flush` emits a sync frame carrying `next_packet_id = 1`
+(frame 1), which is delivered. -/
+def hcResyncSched : List POp :=
+  [.sendA [5] 0 .unreliable, .stepA 0, .stepB 0, .flushA, .stepA 5000000000, .flushA, .deliverAB 1]
+
+/-- **A run with a window-moving sync frame is covered.** In the run `hcResyncSched` the delivery of
+the sync frame makes `B`'s packet receiver move its window base from 0 to 1 (`advB = 1`) without any
+`receive` — the `resync` step of `Sys`. No Reliable packet had been emitted when the sync frame was
+built, so `SyncOkP` held and the frame was recorded (`syncs = [(1, 1)]`); its delivery satisfies
+`FreshSync`, the schedule is `Guarded` (by the executable test), and the refinement theorem and its
+consequences apply to this run. (Before `Sys` had the `sync` / `resync` steps this run was outside
+`Guarded`.) -/
 theorem C01_hc_resync_witness :
-    (match runP CreditEx.exOps hcExPair
-        [.sendA [5] 0 .unreliable, .stepA 0, .stepB 0, .flushA, .stepA 5000000000, .flushA, .deliverAB 1] with
+    (match runP CreditEx.exOps hcExPair hcResyncSched with
      | .ok h =>
        decide (h.wireAB.length = 2 ∧ h.advB = 1 ∧ h.outs = [] ∧ h.fed = [] ∧
-         (h.wireAB[1]?.map decode) = some (some (.sync (some 1) (some 1)))) &&
-       !guardedB CreditEx.exOps hcExPair
-         [.sendA [5] 0 .unreliable, .stepA 0, .stepB 0, .flushA, .stepA 5000000000, .flushA, .deliverAB 1]
+         (h.wireAB[1]?.map decode) = some (some (.sync (some 1) (some 1))) ∧
+         h.syncs = [(1, 1)] ∧ h.em.map (·.mode) = [.unreliable] ∧
+         h.bases = [(0, 0), (1, 1)]) &&
+       guardedB CreditEx.exOps hcExPair hcResyncSched
+     | .error _ => false) = true := by decide +kernel
+
+/-- The refinement applied to that run: it is matched by a run of `Sys` (which contains a `sync` and
+a `resync` step) ending in a state related by `Rel`, in particular with `s.rcv.adv = 1` and an empty
+log. -/
+theorem C01_hc_resync_witness_refines :
+    ∃ h sops s, runP CreditEx.exOps hcExPair hcResyncSched = .ok h ∧
+      runS (initS 16 16 0 100000 100000) sops = .ok s ∧ Rel h s ∧ s.rcv.adv = 1 ∧
+      s.rcv.log.filterMap LogE.data = [] := by
+  have hw := C01_hc_resync_witness
+  cases hr : runP CreditEx.exOps hcExPair hcResyncSched with
+  | error t => rw [hr] at hw; cases hw
+  | ok h =>
+    rw [hr] at hw
+    simp only [Bool.and_eq_true, decide_eq_true_eq] at hw
+    obtain ⟨⟨_, hadv, houts, _⟩, hg⟩ := hw
+    obtain ⟨sops, s, hs, hrel⟩ := C01_hc_refines_sys CreditEx.exOps CreditEx.exCfg CreditEx.exCfg 0 0 _ _
+      C01_hc_example_hyps.1 C01_hc_example_hyps.2.1 hcResyncSched h
+      (C01_hc_guarded_checker _ _ _ hg) hr
+    exact ⟨h, sops, s, rfl, hs, hrel, by rw [hrel.adv, hadv], by rw [hrel.log, houts]⟩
+
+/-! ## 6. Sync frames: the guard `SyncOkP` is discharged from the half connections -/
+
+open Uflow.HcFrm Uflow.HcCov in
+/-- **Frame-level acknowledgements are genuine** (the frame-layer analogue of `C01_hc_acks_genuine`).
+For EVERY schedule (loss, duplication, reordering of frames in both directions, any interleaving), as
+long as no frame id has been reused on the `A → B` wire (`IdsNodup`: the ids of the data frames of
+`wireAB` are pairwise distinct — true while `A` has sent at most `2^32` data frames,
+`C01_hc_ids_nodup`; `FrmCfg`: `A`'s frame window configuration as in `HcInv.CfgOk`): if fragment `fid` of a packet in `A`'s send window is
+marked acknowledged (`fid ∈ w.packet.acked`, set only by `acknowledge_fragment` from
+`handle_ack_frame`), then the fragment datagram `w.packet.datagram fid` was handed to `B`'s packet
+receiver (`d ∈ fed`): a data frame carrying it was delivered to `B` and passed `B`'s frame window
+test. `A` never believes a fragment delivered that `B`'s `handle_datagram` has not been called with. -/
+theorem C01_hc_frame_acks_genuine (ops : FloatOps F) (cA cB : Config) (nowA nowB : Nat) (rngA rngB : Rng)
+    (hc : PairCfg cA cB) (hfc : FrmCfg cA) (sched : List POp) (h : HcPair F)
+    (hrun : runP ops (initP ops cA cB nowA nowB rngA rngB) sched = .ok h) (hn : IdsNodup h.wireAB) :
+    ∀ w ∈ h.A.ps.win, ∀ fid ∈ w.packet.acked, ∃ d, w.packet.datagram fid = .ok d ∧ d ∈ h.fed :=
+  (frmInv_run ops sched (pairInv_init ops cA cB nowA nowB rngA rngB hc.txA hc.txB hc.rxB hc.winB)
+    (frmInv_init ops cA cB nowA nowB rngA rngB hfc hc.txA) hrun hn).snd.acked
+
+open Uflow.HcFrm in
+/-- **Frame ids are not reused while at most `2^32` data frames have been sent** — the hypothesis
+`IdsNodup` of the theorems of this section is discharged. For EVERY schedule: the data frames on the
+`A → B` wire carry consecutive frame ids modulo `2^32` (`DataFrameEmitter` starts a frame with
+`FrameLog::next_id()` only if the frame window has room for it, and `finalize` then pushes the log entry, the
+only place where `next_id()` changes); so if `A` has put at most `2^32` data frames on the wire
+(`dataId` = the frame id of a byte string that parses as a data frame), their ids are pairwise
+distinct. -/
+theorem C01_hc_ids_nodup (ops : FloatOps F) (cA cB : Config) (nowA nowB : Nat) (rngA rngB : Rng)
+    (hc : PairCfg cA cB) (hfc : FrmCfg cA) (sched : List POp) (h : HcPair F)
+    (hrun : runP ops (initP ops cA cB nowA nowB rngA rngB) sched = .ok h)
+    (hlen : (h.wireAB.filterMap dataId).length ≤ 2^32) : IdsNodup h.wireAB :=
+  (frmInv_run_few ops sched (pairInv_init ops cA cB nowA nowB rngA rngB hc.txA hc.txB hc.rxB hc.winB)
+    (frmInv_init ops cA cB nowA nowB rngA rngB hfc hc.txA) hrun hlen).nodup hlen
+
+open Uflow.HcCov in
+/-- **What an empty resend queue and pending queue mean** — the sender-side condition of
+`emit_sync_frame` for `next_packet_id`. For EVERY schedule: if `A`'s resend queue and pending queue
+are both empty, every fragment of every Reliable packet still in `A`'s send window is marked
+acknowledged. (`em` = the emission history with send modes; the mode of the packet with identity `uid`
+is `em[uid].mode`. An entry leaves the pending queue when its fragment is sent — and then enters the
+resend queue if the packet is Persistent / Reliable —, is acknowledged, or its packet has left the
+window; it leaves the resend queue only when its fragment is acknowledged or its packet has left the
+window.) -/
+theorem C01_hc_sender_idle (ops : FloatOps F) (cA cB : Config) (nowA nowB : Nat) (rngA rngB : Rng)
+    (hc : PairCfg cA cB) (sched : List POp) (h : HcPair F)
+    (hrun : runP ops (initP ops cA cB nowA nowB rngA rngB) sched = .ok h)
+    (hres : h.A.resend.size = 0) (hpen : h.A.pending.length = 0) :
+    ∀ w ∈ h.A.ps.win, ∀ x, h.em[w.packet.uid]? = some x → x.mode = .reliable →
+      ∀ f, f ≤ w.packet.lastFragmentId → f ∈ w.packet.acked :=
+  cv_idle (cv_run ops sched (pairInv_init ops cA cB nowA nowB rngA rngB hc.txA hc.txB hc.rxB hc.winB)
+    (cv_init ops cA nowA rngA) hrun) hres hpen
+
+open Uflow.HcFrm in
+/-- The hypotheses of the results below: those of `C01_hc_no_skip` (`w ≤ 2^16`, receive window `2^k`,
+`k ≤ 19`, same initial packet id), the send window not larger than the receive window (`w ≤ 2^k`; the
+library uses the same constant for both — with `w > 2^k` `B` acknowledges frames whose datagrams its
+packet receiver drops as outside the receive window, and `A` stops resending them), and `FrmCfg`. -/
+structure SyncCfg (cA cB : Config) (k : Nat) : Prop where
+  pc : PairCfg cA cB
+  base : cA.txPacketBaseId = cB.rxPacketBaseId
+  hw : cA.txPacketWindowSize ≤ 2^16
+  hk : k ≤ 19
+  hW : cB.rxPacketWindowSize = 2^k
+  hwk : cA.txPacketWindowSize ≤ 2^k
+  frm : FrmCfg cA
+
+theorem SyncCfg.shyp {cA cB : Config} {k : Nat} (h : SyncCfg cA cB k) :
+    SHyp cA.txPacketWindowSize k cA.txPacketBaseId := ⟨h.hw, h.hk, h.pc.txA, h.hwk⟩
+
+open Uflow.HcFrm in
+/-- **`SyncOkP` is discharged.** In every `Guarded` run that does not reuse frame ids — of any length:
+the 20-bit packet ids may wrap any number of times —: whenever `A`'s resend queue and pending queue are empty — in particular whenever
+`emit_sync_frame` puts `next_packet_id` into a sync frame — every Reliable packet `A` has emitted has
+been completely received by `B` (`SyncOkP`: the receive window base has passed it, or its slot in `B`'s
+receive window has the entry flag). Consequently every sync frame on the `A → B` wire that carries a
+packet id is recorded in the ghost list `syncs` (second part), i.e. the condition "`A.flush` emitted it
+while `SyncOkP` held" in `FreshSync` is always true and `FreshSync` is a pure freshness condition like
+`FreshDg` / `FreshAck`. -/
+theorem C01_hc_sync_ok (ops : FloatOps F) (cA cB : Config) (nowA nowB : Nat) (rngA rngB : Rng) (k : Nat)
+    (hc : SyncCfg cA cB k) (sched : List POp) (h : HcPair F)
+    (hg : Guarded ops (initP ops cA cB nowA nowB rngA rngB) sched)
+    (hrun : runP ops (initP ops cA cB nowA nowB rngA rngB) sched = .ok h)
+    (hn : IdsNodup h.wireAB) :
+    (h.A.resend.size = 0 → h.A.pending.length = 0 → SyncOkP h) ∧
+    ∀ bytes ∈ h.wireAB, ∀ nf id, decode bytes = some (.sync nf (some id)) → ∃ n, (n, id) ∈ h.syncs := by
+  obtain ⟨sops, s, _, hF⟩ := full_run ops hc.shyp sched
+    (full_init ops cA cB nowA nowB rngA rngB k hc.pc.txA hc.pc.txB hc.pc.rxB hc.base hc.hW hc.frm) hg hrun hn
+  exact ⟨fun h1 h2 => full_syncOk hc.shyp hF.pi hF.cv hF.wu hF.rel hF.reach hF.gotA h1 h2, hF.sy⟩
+
+open Uflow.HcFrm in
+/-- **With fewer than `2^19` emitted packets NO schedule hypothesis is needed.** If the run emits
+fewer than `2^19` packets and does not reuse frame ids, its schedule is `Guarded` — whatever the
+network does (loss, duplication, reordering, delay of data, ack and sync frames): the freshness
+clauses hold because the 20-bit ids cannot have wrapped (`C01_hc_guarded_of_few`), and every sync
+frame with a packet id handed to `B` is a recorded one (`C01_hc_sync_ok`). So `C01_hc_refines_sys`,
+`C01_hc_in_order`, `C01_hc_at_most_once`, `C01_hc_byte_exact`, `C02_hc_no_skip`, `C01_hc_delivery`
+apply to EVERY such run, including those in which sync frames move `B`'s packet window. -/
+theorem C01_hc_guarded_of_few_full (ops : FloatOps F) (cA cB : Config) (nowA nowB : Nat) (rngA rngB : Rng)
+    (k : Nat) (hc : SyncCfg cA cB k) (sched : List POp) (h : HcPair F)
+    (hrun : runP ops (initP ops cA cB nowA nowB rngA rngB) sched = .ok h)
+    (hn : IdsNodup h.wireAB) (hfew : h.pend.length < 2^19) :
+    Guarded ops (initP ops cA cB nowA nowB rngA rngB) sched :=
+  (full_run_few ops hc.shyp sched
+    (full_init ops cA cB nowA nowB rngA rngB k hc.pc.txA hc.pc.txB hc.pc.rxB hc.base hc.hW hc.frm) hrun hn hfew).1
+
+open Uflow.HcFrm in
+/-- **Delivery for every schedule of a short run**: the conclusions of `C01_hc_delivery` — in order
+per channel, at most once, byte-exact, Reliable packets never skipped, for one common attribution of
+the payloads returned by `B.receive` — without any hypothesis on the schedule, for runs that emit
+fewer than `2^19` packets and do not reuse frame ids (`allocCeil a ≤ allocCeil m` as in
+`C01_hc_byte_exact`). -/
+theorem C01_hc_delivery_few (ops : FloatOps F) (cA cB : Config) (nowA nowB : Nat) (rngA rngB : Rng)
+    (k : Nat) (hc : SyncCfg cA cB k) (ham : allocCeil cA.txAllocLimit ≤ allocCeil cB.rxAllocLimit)
+    (sched : List POp) (h : HcPair F)
+    (hrun : runP ops (initP ops cA cB nowA nowB rngA rngB) sched = .ok h)
+    (hn : IdsNodup h.wireAB) (hfew : h.pend.length < 2^19) :
+    ∃ (log : List LogE) (em : List Emitted),
+      log.map LogE.data = h.outs.map some ∧
+      (em.map Emitted.toQ).Sublist h.sent ∧
+      (∀ c, ((log.filter (fun e => decide (e.chan = c))).filterMap LogE.data).Sublist
+        ((h.sent.filter (fun q => decide (q.channelId = c))).map QEntry.data)) ∧
+      log.Pairwise (fun x y => x.uid ≠ y.uid) ∧
+      (∀ e ∈ log, ∃ x, em[e.uid]? = some x ∧ e.chan = x.channelId ∧ e.data = some x.data) ∧
+      ∀ (l1 : List LogE) (e : LogE) (l2 : List LogE), log = l1 ++ e :: l2 →
+        ∀ (j : Nat) (x : Emitted), em[j]? = some x → x.mode = .reliable → x.channelId = e.chan →
+          j < e.uid → ∃ e' ∈ l1, e'.uid = j ∧ e'.chan = e.chan :=
+  C01_hc_delivery ops cA cB nowA nowB rngA rngB hc.pc hc.base hc.hw k hc.hk hc.hW ham sched h
+    (C01_hc_guarded_of_few_full ops cA cB nowA nowB rngA rngB k hc sched h hrun hn hfew) hrun
+
+instance (wire : List (List Nat)) : Decidable (HcFrm.IdsNodup wire) := by
+  unfold HcFrm.IdsNodup; infer_instance
+
+/-- The hypotheses of section 6 hold for the two example runs: `SyncCfg` for the example configuration
+(`16 ≤ 2^16`, `16 = 2^4`, frame window `16 + 16 < 2^31`), no frame id is reused (at most `2^32` data
+frames), few packets. -/
+theorem C01_hc_sync_example_hyps :
+    SyncCfg CreditEx.exCfg CreditEx.exCfg 4 ∧
+    (match runP CreditEx.exOps hcExPair hcExSched with
+     | .ok h => decide (HcFrm.IdsNodup h.wireAB ∧ (h.wireAB.filterMap HcFrm.dataId).length ≤ 2^32 ∧
+         h.pend.length < 2^19)
+     | .error _ => false) = true ∧
+    (match runP CreditEx.exOps hcExPair hcResyncSched with
+     | .ok h => decide (HcFrm.IdsNodup h.wireAB ∧ h.pend.length < 2^19 ∧ h.A.resend.size = 0 ∧
+         h.A.pending.length = 0 ∧ SyncOkP h)
+     | .error _ => false) = true := by
+  refine ⟨⟨C01_hc_example_hyps.1, by decide, by decide, by decide, by decide, by decide,
+    ⟨by decide, by decide⟩⟩, by decide +kernel, by decide +kernel⟩
+
+/-- A run in which a sync frame skips a lost Unreliable packet behind a delivered Reliable one. `A`
+sends Reliable `[1]` (frame 0), delivered, returned by `B.receive`, acknowledged (`B`'s ack frame is
+delivered to `A`: the fragment is marked acknowledged and the packet leaves the send window). `A` sends
+Unreliable `[2]` (frame 1, LOST). Five seconds later `A.flush` finds its resend queue and pending queue
+empty and emits a sync frame with `next_packet_id = 2` (frame 2); `SyncOkP` holds — the only Reliable
+packet emitted so far has been passed by `B`'s window base — so `(2, 2)` is recorded in `syncs`. Its
+delivery moves `B`'s window base from 1 to 2 without a `receive`. `A` then sends Reliable `[3]` (frame
+3), which is delivered and returned. -/
+def hcSyncSched : List POp :=
+  [ .sendA [1] 0 .reliable, .stepA 0, .stepB 0, .flushA, .deliverAB 0, .recvB, .stepB 1000000000, .flushB,
+    .deliverBA 0, .sendA [2] 0 .unreliable, .stepA 1000000000, .flushA,
+    .stepA 6000000000, .flushA, .deliverAB 2,
+    .sendA [3] 0 .reliable, .stepA 7000000000, .flushA, .deliverAB 3, .recvB ]
+
+/-- The run exists and ends as described; its schedule is `Guarded`, no frame id is reused, so all
+theorems of this file apply to it (`[2]` is never delivered; `[1]`, `[3]` are, in order). -/
+theorem C01_hc_sync_example :
+    (match runP CreditEx.exOps hcExPair hcSyncSched with
+     | .ok h =>
+       decide (h.outs = [[1], [3]] ∧ h.advB = 3 ∧ h.syncs = [(2, 2)] ∧
+         h.bases = [(0, 0), (0, 0), (1, 1), (2, 2), (2, 2), (3, 3)] ∧
+         h.em.map (·.mode) = [.reliable, .unreliable, .reliable] ∧
+         (h.wireAB[2]?.map decode) = some (some (.sync (some 2) (some 2))) ∧
+         HcFrm.IdsNodup h.wireAB ∧ h.pend.length < 2^19) &&
+       guardedB CreditEx.exOps hcExPair hcSyncSched
      | .error _ => false) = true := by decide +kernel
 
 end Uflow.Props.C01
